@@ -3,23 +3,28 @@ import Spok.Props.C07
 
 `notes t` is the sequence of non-empty comments (trimmed, as the formatter and `--show` see them), the
 positions of the statements between them, and every task's (trimmed) docstring.  `notes (norm t) = notes t`
-holds for EVERY tree; with `print_parse` the re-parsed formatted text has the same notes, for every
-well-formed tree: no comment lost, duplicated, moved past a statement or turned into a docstring.
-Open: `parse_wf` (see `Props/C07`). -/
+holds for EVERY tree; with C07's `print_parse`, `parse_wf` and `format_selfDec`, for every byte string that
+parses the formatted bytes parse to a tree with the same notes: no comment lost, duplicated, moved past a
+statement or turned into the docstring of a task it did not document. -/
 namespace Spok.Props.C15
 open Spok
 
 theorem notes_norm (t : Tree) : notes (norm t) = notes t := Spok.notes_norm t
 
-/-- **C15** for every well-formed tree.  Missing for the full property: `parse_wf`. -/
-theorem C15_partial (t : Tree) (h : wfTree t = true) :
-    (parseRunes (format t)).fail = none ∧ notes (parseRunes (format t)).tree = notes t := by
-  rw [C07.print_parse t h]; exact ⟨rfl, Spok.notes_norm t⟩
+/-- **C15** (byte level, full strength) -/
+theorem C15 (bytes : List UInt8) (hp : (parse bytes).fail = none) :
+    (parse (flat (format (parse bytes).tree))).fail = none ∧
+    notes (parse (flat (format (parse bytes).tree))).tree = notes (parse bytes).tree := by
+  have hw : wfTree (parse bytes).tree = true := C07.parse_wf (decodeAll bytes) hp
+  rw [C07.format_bytes bytes hp, C07.print_parse _ hw]
+  exact ⟨rfl, Spok.notes_norm _⟩
 
-theorem judge_accepts_model_partial (t : Tree) (h : wfTree t = true) :
-    Judge.c15 t (.ok (parseRunes (format t)).tree) = true := by
-  rw [C07.print_parse t h]; simp [Judge.c15, Spok.notes_norm]
+theorem judge_accepts_model (bytes : List UInt8) (hp : (parse bytes).fail = none) :
+    Judge.c15 (parse bytes).tree (.ok (parse (flat (format (parse bytes).tree))).tree) = true := by
+  have := (C15 bytes hp).2
+  simp [Judge.c15, this]
 
-example : notes (parseRunes (format Fmt.exTree)).tree = notes Fmt.exTree := (C15_partial _ Fmt.exTree_wf).2
+example : notes (parseRunes (format Fmt.exTree)).tree = notes Fmt.exTree := by
+  rw [C07.print_parse _ Fmt.exTree_wf]; exact Spok.notes_norm _
 
 end Spok.Props.C15
